@@ -261,6 +261,8 @@ type Line struct {
 	FV       string
 	IV       string // "*" = unconstrained
 	DV       string // value of the file's own dynamic variable DV_<file> (sh: pwd); "*" = unconstrained
+	AV       []string // per ancestor file (Tree.Ancestors order): the include variable of the include statement on this
+	// instance's chain that targets the ancestor; "*" = unconstrained (no such statement on the chain, or it has no vars)
 	Via      string // self | dep | call | dep:root | call:root | call:child
 	RefDepth int    // include depth of the referring instance
 	RefChain string // depth class and flatten pattern of the referring instance's include chain
@@ -269,7 +271,7 @@ type Line struct {
 }
 
 func (l Line) String() string {
-	return fmt.Sprintf("ORIGIN=%s TASK=%s PWD=%s FV=%s IV=%s DV=%s", l.Origin, l.Task, l.PWD, l.FV, l.IV, l.DV)
+	return fmt.Sprintf("ORIGIN=%s TASK=%s PWD=%s FV=%s IV=%s DV=%s AV=[%s]", l.Origin, l.Task, l.PWD, l.FV, l.IV, l.DV, strings.Join(l.AV, ","))
 }
 
 // ChainTag classifies an include chain: depth 0, 1 or 2+, and where flatten occurs
@@ -311,6 +313,20 @@ func (m *Model) line(in *Inst, via string, ref *Inst) Line {
 		if e.Flatten {
 			l.Flat = true
 		}
+	}
+	for _, a := range m.T.Ancestors(in.File) {
+		v := "*"
+		for _, e := range in.Chain {
+			if e.Target != a {
+				continue
+			}
+			for _, kv := range e.Vars {
+				if kv[0] == "IV_"+m.T.Files[a].ID {
+					v = kv[1]
+				}
+			}
+		}
+		l.AV = append(l.AV, v)
 	}
 	return l
 }
